@@ -25,8 +25,14 @@ META = {}
 for _path in sorted(glob.glob(os.path.join(os.path.dirname(__file__),
                                            "c[0-9][0-9]_meta.py"))):
   _name = os.path.basename(_path)[:-3]
-  _mod = importlib.import_module("props." + _name)
-  _m = dict(_mod.META)
+  try:
+    _mod = importlib.import_module("props." + _name)
+    _m = dict(_mod.META)
+    _m["rule"], _m["level_text"], _m["technique"]
+  except Exception as _exc:  # a broken meta file must not break other checks
+    import sys
+    sys.stderr.write("props/%s.py unusable: %r\n" % (_name, _exc))
+    continue
   _m["assumptions"] = COMMON_ASSUMPTIONS + list(_m.get("assumptions", []))
   _m.setdefault("level", "exploration")
   META[_name[:3].upper()] = _m
